@@ -154,6 +154,9 @@ fn etag_ok(e: &[u8]) -> bool {
 
 pub fn run(ctx: &mut Ctx) -> Result<RunOut, Violation> {
     let focus = ctx.focus;
+    if ctx.mode == 1 {
+        return run_concurrent(ctx);
+    }
     if focus == "C18" && ctx.tape.chance(1, 8) {
         return run_metadata(ctx);
     }
@@ -589,3 +592,146 @@ fn run_metadata(ctx: &mut Ctx) -> Result<RunOut, Violation> {
 
 #[allow(dead_code)]
 fn _s(_: &dyn Stream<Item = ()>) {}
+
+/// Mode 1: two streams over ONE ChunkedReadFile (clones share the open file), each polled on
+/// its own simulated thread; the baton scheduler interleaves them at every lseek/read/pread on
+/// that file (system-call seam). Each stream must still yield exactly its range.
+fn run_concurrent(ctx: &mut Ctx) -> Result<RunOut, Violation> {
+    use crate::sched::{with_helpers, Job, Sched, HELPERS};
+    use std::os::unix::io::AsRawFd;
+    use std::sync::{Arc, Mutex};
+    let t = &mut ctx.tape;
+    let len = [1u64, 300, 65536, 70_000, 140_000, 200_001][t.draw(6) as usize] + t.draw(50) as u64;
+    let seed = t.draw(u32::MAX) as u64;
+    let mut ranges = Vec::new();
+    for _ in 0..2 {
+        let mut a = gen_offset(t, len);
+        let mut b = gen_offset(t, len);
+        if a > b {
+            std::mem::swap(&mut a, &mut b);
+        }
+        if a == b {
+            a = 0;
+            b = len;
+        }
+        ranges.push((a, b));
+    }
+    let trace = ctx.tracing();
+    let dir = scratch_dir();
+    let path = dir.join("c");
+    let _w = write_file(&path, seed, len);
+    let rfile = File::open(&path).expect("open scratch file");
+    let fd = rfile.as_raw_fd();
+    let crf = match Crf::new(rfile, HeaderMap::new()) {
+        Ok(c) => c,
+        Err(e) => return violation("C18", "regular-file-refused", e.to_string()),
+    };
+    let tape = std::mem::replace(&mut ctx.tape, Tape::replay(Vec::new()));
+    let sched = Sched::new(tape, 2, trace);
+    let outs: Vec<Arc<Mutex<(Vec<u8>, Vec<Step>)>>> = (0..2).map(|_| Arc::new(Mutex::new((Vec::new(), Vec::new())))).collect();
+    let mut jobs: Vec<Job> = Vec::new();
+    for tid in 0..2usize {
+        let sched = sched.clone();
+        let crf = crf.clone();
+        let out = outs[tid].clone();
+        let (a, b) = ranges[tid];
+        jobs.push(Box::new(move || {
+            sched.start_thread(tid);
+            crate::sysseam::register(fd, &sched);
+            let r = catch(|| {
+                let (_f, waker) = crate::a_drain::new_waker();
+                let mut cx = Context::from_waker(&waker);
+                let mut s = crf.get_range(a..b);
+                let mut bytes = Vec::new();
+                let mut steps = Vec::new();
+                for _ in 0..(b - a + 8).min(100_000) {
+                    match s.as_mut().poll_next(&mut cx) {
+                        Poll::Pending => {
+                            steps.push(Step::Pending);
+                            break;
+                        }
+                        Poll::Ready(None) => {
+                            steps.push(Step::End);
+                            break;
+                        }
+                        Poll::Ready(Some(Err(e))) => {
+                            steps.push(Step::Err(format!("{e:?}")));
+                            break;
+                        }
+                        Poll::Ready(Some(Ok(mut d))) => {
+                            steps.push(Step::Data(d.remaining() as u64));
+                            while d.has_remaining() {
+                                let c = d.chunk();
+                                let l = c.len();
+                                bytes.extend_from_slice(c);
+                                d.advance(l);
+                            }
+                        }
+                    }
+                }
+                (bytes, steps)
+            });
+            crate::sysseam::unregister();
+            let panic = match r {
+                Ok(v) => {
+                    *out.lock().unwrap() = v;
+                    None
+                }
+                Err(p) => Some(p),
+            };
+            sched.finish_thread(panic);
+            crate::sched::TID.with(|t| t.set(usize::MAX));
+        }));
+    }
+    let j1 = jobs.pop().unwrap();
+    let j0 = jobs.pop().unwrap();
+    let finished = with_helpers(|h0, h1| {
+        h0.run(j0);
+        h1.run(j1);
+        let f = sched.run_to_completion(std::time::Duration::from_secs(15));
+        if f {
+            h0.wait();
+            h1.wait();
+        }
+        f
+    });
+    if !finished {
+        HELPERS.with(|h| *h.borrow_mut() = None);
+    }
+    let mut st = sched.m.lock().unwrap();
+    ctx.tape = st.tape.take().expect("tape comes back");
+    ctx.hash = mix(ctx.hash, st.hash);
+    if let Some(tr) = st.trace.take() {
+        ctx.note(|| format!("file of {len} bytes, streams {ranges:?} over one ChunkedReadFile; schedule:\n    {}", tr.join("\n    ")));
+    }
+    ctx.stats.add("d_concurrent_context_switches", st.switches);
+    ctx.stats.add("d_concurrent_syscall_scheduling_points", st.steps);
+    let desc = format!("file of {len} bytes, two streams {ranges:?} over one ChunkedReadFile on two simulated threads ({} context switches)", st.switches);
+    if let Some(p) = st.panics.first() {
+        return violation("C18", "panic", format!("{p}; {desc}"));
+    }
+    if !finished || st.deadlock.is_some() {
+        return violation("C18", "hang", format!("{:?}; {desc}", st.deadlock));
+    }
+    let sig = mix(mix(0xD1, st.sig), len);
+    let switches = st.switches;
+    drop(st);
+    for tid in 0..2 {
+        let (a, b) = ranges[tid];
+        let o = outs[tid].lock().unwrap();
+        let expected: Vec<u8> = (a..b).map(|i| ebyte(seed, i)).collect();
+        ctx.ev("stream", o.0.len() as u64, o.1.len() as u64);
+        if !matches!(o.1.last(), Some(Step::End)) {
+            return violation("C18", "concurrent-stream-failed", format!("stream {tid} ({a}..{b}) ended with {:?}; {desc}", o.1.last()));
+        }
+        if o.0 != expected {
+            let eq = o.0.iter().zip(&expected).take_while(|(x, y)| x == y).count();
+            return violation("C18", "concurrent-stream-wrong-bytes", format!("stream {tid} ({a}..{b}) delivered {} bytes, first difference at range offset {eq}; {desc}", o.0.len()));
+        }
+    }
+    ctx.stats.bump("c18_concurrent_pairs_judged");
+    if ctx.wants_sample() {
+        ctx.sample = Some(json!({"case": desc}));
+    }
+    Ok(RunOut { sig, nontrivial: switches > 0 })
+}
